@@ -2,7 +2,8 @@
 //
 // Rules (DESIGN.md §3 C03), files c03.go (registration, shared helpers), c03_header.go
 // (R-C03-1..3), c03_request.go (R-C03-4, R-C03-5), c03_framing.go (R-C03-6),
-// c03_writeout.go (R-C03-7), c03_cache.go (R-C03-8).
+// c03_writeout.go (R-C03-7), c03_cache.go (R-C03-8),
+// c03_reader.go (R-C03-9).
 //
 // Genuine defects found on the unchanged tree (all R-C03-6, demonstrated end to end, fixes in
 // /tmp/vw/C03/out/fix-{1,2,3}.diff; the rule stays as it is):
@@ -82,7 +83,9 @@ func c03(c *core.Ctx) string {
 	c.Rule("R-C03-6", "framing pairing: (a) a store of a length-changing reader (gzip) to http.Response.Body is paired on all paths with a store to ContentLength and a Set/Del of the Content-Length header of the same response; (b) every (*httpprot.Response).SetPayload call site outside httpprot is paired on all paths with a Set/Del of Content-Length on the same response, unless the response was created in the same function (NewResponse(nil)/BuildResponse) or SetPayload / the write-out normalises the header centrally")
 	c.Rule("R-C03-7", "write-out: every exit of muxInstance.serveHTTP runs the deferred write-out, which on every path copies the response header into the ResponseWriter's header, then calls WriteHeader(resp.StatusCode()), then io.Copy(w, resp.GetPayload()) — all three on the same response and the same writer")
 	c.Rule("R-C03-8", "cache isolation: header maps cross the boundary of the proxy's memory cache only by copy — every header stored into a cache entry (the struct (*MemoryCache).Load returns) is a fresh Clone, and the header of an entry is only ever cloned or inspected, never handed to a response, stored elsewhere, returned or modified in place")
+	c.Rule("R-C03-9", "body readers: in every io.Reader implementation of the module (Read(p []byte) (int, error)) the buffer is only ever advanced (p = p[k:]) by the count returned by the most recent write into the current buffer, and every count of bytes written reaches the returned total before it is overwritten and on every exit")
 	c.NotDecided = []string{
+		"value semantics of Server.checkAddrPattern's port / IPv6-bracket stripping (which string reaches net.ParseIP for which URL is index arithmetic on the host string; no shape rule short of freezing today's text decides it)",
 		"sharing of the cached body bytes and of the []string value slices between cache entry and live responses (payloads are replaced, not edited in place, by convention; not checked)",
 		"bit-exactness of bodies and gzip round-trips (value semantics of the readers)",
 		"chunked framing on the wire, trailers, HTTP/2 and HTTP/3 specifics",
@@ -98,6 +101,7 @@ func c03(c *core.Ctx) string {
 	c03Framing(c)
 	c03WriteOut(c)
 	c03Cache(c)
+	c03Readers(c)
 	return "Structural necessary conditions of faithful forwarding, decided on every path of the anchored functions: the outbound header is a clone from which the nine hop-by-hop headers and every Connection-listed header are removed (path-sensitive, with per-iteration checks of the loops, through helper functions); method/URL/query/body/header/Host of the outbound request come from the inbound request according to the stated decision tables; every replacement of a response payload or body is paired with re-establishing Content-Length on all paths (all SetPayload sites and gzip Body swaps in the module); the mux write-out copies header, status and payload of one response in order on every exit. Not decided: byte-level equality, wire framing, URL re-encoding."
 }
 
